@@ -1,8 +1,31 @@
 import PyribsProofs.Lemmas.Proximity
-import PyribsProofs.C06
+import Mathlib.Analysis.Real.Sqrt
+/-!
+# C14 — ProximityArchive admits by novelty, is append-only, replaces only by competition
+
+Property theorems about `PyribsModel.Proximity` (the model of `_proximity_archive.py`), for every
+configuration (`k_neighbors`, threshold, local competition on / off, initial capacity ≥ 1), every
+state satisfying the invariant `ProxInv` (= every reachable state, `inv_history`), every batch and
+every history of `add` / `clear`.
+
+* admission: `sqrtLo_le`, `le_sqrtHi`, `sqrt_bracket_real`, `novelDec_empty`, `novelDec_sound`
+  (over ℝ), `novelDec_sound_k1` (exact), `bracket_sound`, `kNearest_spec`, `nearestSet_spec`,
+  `assign_respects_decision`, `admission_sound`;
+* the `add_indices` block: `assign_flags_length`, `assign_novel_fresh`;
+* invariant: `inv_new`, `inv_add`, `inv_clear`, `inv_history`;
+* append-only: `novel_fresh`, `append_only`, `append_only_history`;
+* local competition: `replace_iff`, `competitors_nearest`;
+* capacity: `growCap_spec`, `capacity_ge_len`, `capacity_add`, `capacity_mono_step`;
+* bounds: `bounds_none_iff`, `bounds_after_clear`, `bounds_spec`;
+* `nonvacuous`.
+-/
 namespace Pyribs.C14
 open Pyribs Pyribs.Prox Pyribs.Arch Pyribs.Store
 
+/-- The invariant of every reachable `ProximityArchive` state: the underlying archive is elitist
+(`learning_rate = 1`, `threshold_min = -inf`), every stored threshold is the stored objective, the
+store's occupancy bookkeeping is exact (C13), the entries sit at the indices `0 … len-1` and
+nowhere else, and the (positive) capacity holds them. -/
 structure ProxInv (p : Prox) : Prop where
   cfg_eq  : p.arch.cfg = ⟨1, none, p.cfg.offset⟩
   thr     : C01.ThrObj p.arch
@@ -18,6 +41,7 @@ theorem ProxInv.elitist {p : Prox} (h : ProxInv p) : C01.Elitist p.arch.cfg := b
 def grown (p : Prox) (n : Nat) : Arch :=
   { p.arch with store := { p.arch.store with cap := growCap p.capacity (p.len + n) (p.len + n) } }
 
+/-- number of candidates flagged novel (`n_novel_enough`) -/
 def nNovel (flags : List Bool) : Nat := (flags.filter id).length
 
 theorem add_ok (p : Prox) (hs : List Hinted) (p' : Prox) (fb : Feedback)
@@ -434,5 +458,479 @@ theorem capacity_mono_step (p : Prox) (hinv : ProxInv p) (op : Op) : p.capacity 
     cases h : p.add hs with
     | error e => exact le_refl _
     | ok r => obtain ⟨p', fb⟩ := r; exact (capacity_add p hinv hs p' fb h).2.1
+
+
+/-! ## T14.5 bounds -/
+
+theorem bounds_none_iff (p : Prox) (dim : Nat) : p.bounds dim = none ↔ p.len = 0 := by
+  unfold Prox.bounds
+  split <;> simp [*]
+
+theorem bounds_after_clear (p : Prox) (dim : Nat) : p.clear.bounds dim = none :=
+  (bounds_none_iff _ _).mpr rfl
+
+/-- the measure column `k` of the current entries -/
+def column (p : Prox) (k : Nat) : List Rat := p.entries.map (fun x => x.2.meas.getD k 0)
+
+theorem mem_column (p : Prox) (hinv : ProxInv p) (k : Nat) (x : Rat) :
+    x ∈ column p k ↔ ∃ i e, p.arch.cellOf i = some e ∧ x = e.meas.getD k 0 := by
+  unfold column
+  simp only [List.mem_map, Prod.exists]
+  constructor
+  · rintro ⟨i, e, hie, rfl⟩
+    exact ⟨i, e, ((mem_entries p i e).mp hie).2, rfl⟩
+  · rintro ⟨i, e, he, rfl⟩
+    have hi : i < p.len := (hinv.dense i).mp (by simp [he])
+    exact ⟨i, e, (mem_entries p i e).mpr ⟨lt_of_lt_of_le hi hinv.len_le, he⟩, rfl⟩
+
+/-- **T14.5 `bounds_spec`** : the reported bounds are, coordinate by coordinate, the minimum and
+the maximum over the *current* entries: they bound every stored entry and both are attained. -/
+theorem bounds_spec (p : Prox) (hinv : ProxInv p) (dim : Nat) (lo hi : List Rat)
+    (h : p.bounds dim = some (lo, hi)) :
+    lo.length = dim ∧ hi.length = dim ∧
+    ∀ k, k < dim → ∃ l u, lo[k]? = some l ∧ hi[k]? = some u ∧
+      (∀ i e, p.arch.cellOf i = some e → l ≤ e.meas.getD k 0 ∧ e.meas.getD k 0 ≤ u) ∧
+      (∃ i e, p.arch.cellOf i = some e ∧ l = e.meas.getD k 0) ∧
+      (∃ i e, p.arch.cellOf i = some e ∧ u = e.meas.getD k 0) := by
+  unfold Prox.bounds at h
+  split at h
+  · simp at h
+  · rename_i hne
+    simp only [Option.some.injEq, Prod.mk.injEq] at h
+    obtain ⟨rfl, rfl⟩ := h
+    refine ⟨by simp, by simp, ?_⟩
+    intro k hk
+    have hcol : column p k ≠ [] := by
+      have h0 : 0 < p.len := Nat.pos_of_ne_zero hne
+      obtain ⟨e, he⟩ := Option.isSome_iff_exists.mp ((hinv.dense 0).mpr h0)
+      intro hc
+      have : e.meas.getD k 0 ∈ column p k := (mem_column p hinv k _).mpr ⟨0, e, he, rfl⟩
+      rw [hc] at this; simp at this
+    obtain ⟨l, hl, hlm, hlb⟩ := colMin_spec _ hcol
+    obtain ⟨u, hu, hum, hub⟩ := colMax_spec _ hcol
+    refine ⟨l, u, ?_, ?_, ?_, ?_, ?_⟩
+    · simp only [List.map_map, List.getElem?_map, List.getElem?_range hk, Option.map_some,
+        Function.comp]
+      show some ((colMin (column p k)).getD 0) = some l
+      rw [hl]; rfl
+    · simp only [List.map_map, List.getElem?_map, List.getElem?_range hk, Option.map_some,
+        Function.comp]
+      show some ((colMax (column p k)).getD 0) = some u
+      rw [hu]; rfl
+    · intro i e he
+      have : e.meas.getD k 0 ∈ column p k := (mem_column p hinv k _).mpr ⟨i, e, he, rfl⟩
+      exact ⟨hlb _ this, hub _ this⟩
+    · exact (mem_column p hinv k l).mp hlm
+    · exact (mem_column p hinv k u).mp hum
+
+/-! ## T14.1 admission by novelty -/
+
+/-- **`sqrtLo_le`** : `sqrtLo x p` is a non-negative rational lower bound of `√x` -/
+theorem sqrtLo_le (x : Rat) (hx : 0 ≤ x) (p : Nat) : 0 ≤ sqrtLo x p ∧ (sqrtLo x p) ^ 2 ≤ x :=
+  ⟨sqrtLo_nonneg x p, sqrtLo_sq_le x hx p⟩
+
+/-- **`le_sqrtHi`** : `sqrtHi x p` is a rational upper bound of `√x`, and the bracket is ordered -/
+theorem le_sqrtHi (x : Rat) (hx : 0 ≤ x) (p : Nat) :
+    0 ≤ sqrtHi x p ∧ x ≤ (sqrtHi x p) ^ 2 ∧ sqrtLo x p ≤ sqrtHi x p :=
+  ⟨sqrtHi_nonneg x p, le_sqrtHi_sq x hx p, sqrtLo_le_sqrtHi x p⟩
+
+theorem dist2_nonneg (a b : List Rat) : 0 ≤ dist2 a b := by
+  induction a generalizing b with
+  | nil => simp [dist2]
+  | cons x xs ih =>
+    cases b with
+    | nil => simp [dist2]
+    | cons y ys =>
+      simp only [dist2]
+      exact add_nonneg (mul_self_nonneg _) (ih ys)
+
+/-- every neighbour carries the exact squared distance of a stored entry -/
+theorem mem_kNearest (p : Prox) (m : List Rat) (n : Nb) (h : n ∈ p.kNearest m) :
+    ∃ e, n.idx < p.capacity ∧ p.arch.cellOf n.idx = some e ∧ n.d2 = dist2 e.meas m ∧ n.obj = e.obj := by
+  have h1 : n ∈ sortNb (p.neighbours m) := List.mem_of_mem_take h
+  obtain ⟨i, e, hi, he, rfl⟩ := (mem_neighbours p m n).mp ((sortNb_perm _).mem_iff.mp h1)
+  exact ⟨e, hi, he, rfl, rfl⟩
+
+theorem kNearest_d2_nonneg (p : Prox) (m : List Rat) (n : Nb) (h : n ∈ p.kNearest m) : 0 ≤ n.d2 := by
+  obtain ⟨e, _, _, hd, _⟩ := mem_kNearest p m n h
+  rw [hd]; exact dist2_nonneg _ _
+
+theorem novelDec_empty (p : Prox) (m : List Rat) (h : p.len = 0) : p.novelDec m = some true := by
+  simp [novelDec, h]
+
+/-- the bracket sums -/
+def loSum (nb : List Nb) : Rat := (nb.map (fun n => sqrtLo n.d2 sqrtPrec)).sum
+def hiSum (nb : List Nb) : Rat := (nb.map (fun n => sqrtHi n.d2 sqrtPrec)).sum
+
+theorem novelDec_eq (p : Prox) (m : List Rat) (h : p.len ≠ 0) :
+    p.novelDec m =
+      if p.cfg.nu ≤ loSum (p.kNearest m) / ((p.kNearest m).length : Rat) then some true
+      else if hiSum (p.kNearest m) / ((p.kNearest m).length : Rat) < p.cfg.nu then some false
+      else none := by
+  simp only [novelDec, h, if_false, noveltyBracket, loSum, hiSum]
+  rfl
+
+
+theorem dec_cases (ν lo hi : Rat) (d : Option Bool)
+    (h : d = if ν ≤ lo then some true else if hi < ν then some false else none) :
+    (d = some true → ν ≤ lo) ∧ (d = some false → hi < ν) := by
+  subst h
+  by_cases h1 : ν ≤ lo
+  · simp [h1]
+  · by_cases h2 : hi < ν
+    · simp [h1, h2]
+    · simp [h1, h2]
+
+/-- what a decision says about the rational bracket of the novelty -/
+theorem novelDec_bracket (p : Prox) (m : List Rat) (hne : p.len ≠ 0) :
+    (p.novelDec m = some true → p.cfg.nu ≤ loSum (p.kNearest m) / ((p.kNearest m).length : Rat)) ∧
+    (p.novelDec m = some false → hiSum (p.kNearest m) / ((p.kNearest m).length : Rat) < p.cfg.nu) :=
+  dec_cases _ _ _ _ (novelDec_eq p m hne)
+
+theorem loSum_single (prec : Nat) (n : Nb) :
+    ([n].map (fun n => sqrtLo n.d2 prec)).sum / (([n] : List Nb).length : Rat) = sqrtLo n.d2 prec := by
+  simp
+
+theorem hiSum_single (prec : Nat) (n : Nb) :
+    ([n].map (fun n => sqrtHi n.d2 prec)).sum / (([n] : List Nb).length : Rat) = sqrtHi n.d2 prec := by
+  simp
+
+/-- **`novelDec_sound_k1`** : for one nearest entry `n` (`k_neighbors = 1`, or a one-entry archive)
+the decision is exact, by comparing squares: admitted ⇒ `ν² ≤ d²`, rejected ⇒ `d² < ν²`. -/
+theorem novelDec_sound_k1 (p : Prox) (m : List Rat) (n : Nb) (hne : p.len ≠ 0) (hnu : 0 ≤ p.cfg.nu)
+    (hk : p.kNearest m = [n]) :
+    (p.novelDec m = some true → p.cfg.nu ^ 2 ≤ n.d2) ∧
+    (p.novelDec m = some false → n.d2 < p.cfg.nu ^ 2) := by
+  have hd : 0 ≤ n.d2 := kNearest_d2_nonneg p m n (by rw [hk]; exact List.mem_cons_self)
+  obtain ⟨h1, h2⟩ := novelDec_bracket p m hne
+  rw [hk] at h1 h2
+  have hlo : loSum [n] / (([n] : List Nb).length : Rat) = sqrtLo n.d2 sqrtPrec := loSum_single sqrtPrec n
+  have hhi : hiSum [n] / (([n] : List Nb).length : Rat) = sqrtHi n.d2 sqrtPrec := hiSum_single sqrtPrec n
+  rw [hlo] at h1
+  rw [hhi] at h2
+  obtain ⟨hl0, hl⟩ := sqrtLo_le n.d2 hd sqrtPrec
+  obtain ⟨hh0, hh, _⟩ := le_sqrtHi n.d2 hd sqrtPrec
+  constructor
+  · intro h
+    calc p.cfg.nu ^ 2 ≤ (sqrtLo n.d2 sqrtPrec) ^ 2 := pow_le_pow_left₀ hnu (h1 h) 2
+      _ ≤ n.d2 := hl
+  · intro h
+    calc n.d2 ≤ (sqrtHi n.d2 sqrtPrec) ^ 2 := hh
+      _ < p.cfg.nu ^ 2 := pow_lt_pow_left₀ (h2 h) hh0 (by norm_num)
+
+/-! ## the `add_indices` block -/
+
+/-- one admission flag per candidate -/
+theorem assign_flags_length (p : Prox) (hs : List Hinted) (next : Nat) (rows : List (Nat × Cand))
+    (flags : List Bool) (h : p.assign hs next = .ok (rows, flags)) : flags.length = hs.length :=
+  (assign_spec p hs next rows flags h).1
+
+theorem admitDec_decided (p : Prox) (hd : Hinted) (f : Bool) (h : p.admitDec hd = .ok f) :
+    (∀ b, p.novelDec hd.c.meas = some b → f = b) ∧ (p.novelDec hd.c.meas = none → f = hd.novel) := by
+  unfold admitDec at h
+  cases hn : p.novelDec hd.c.meas with
+  | none => rw [hn] at h; simp only [Except.ok.injEq] at h; simp [h]
+  | some b =>
+    rw [hn] at h
+    simp only at h
+    split at h
+    · simp only [Except.ok.injEq] at h; simp [h]
+    · simp at h
+
+/-- **`assign_respects_decision`** : a candidate becomes a new entry iff it is novel: whenever the
+model decides (`novelDec = some b`) the candidate's flag is `b`; only inside the bracket is the
+implementation's own decision taken. -/
+theorem assign_respects_decision (p : Prox) (hs : List Hinted) (next : Nat)
+    (rows : List (Nat × Cand)) (flags : List Bool) (h : p.assign hs next = .ok (rows, flags))
+    (k : Nat) (hd : Hinted) (hk : hs[k]? = some hd) :
+    ∃ f, flags[k]? = some f ∧ (∀ b, p.novelDec hd.c.meas = some b → f = b) ∧
+      (p.novelDec hd.c.meas = none → f = hd.novel) := by
+  obtain ⟨hlen, _, hch⟩ := assign_spec p hs next rows flags h
+  have hk' : k < flags.length := by rw [hlen]; exact (List.getElem?_eq_some_iff.mp hk).1
+  refine ⟨flags[k], List.getElem?_eq_getElem hk', ?_⟩
+  have hmem : (hd, flags[k]) ∈ hs.zip flags :=
+    List.mem_iff_getElem?.mpr ⟨k, List.getElem?_zip_eq_some.mpr ⟨hk, List.getElem?_eq_getElem hk'⟩⟩
+  exact admitDec_decided p hd _ (hch _ hmem).1
+
+/-- every candidate of an empty archive is novel -/
+theorem assign_empty_all_novel (p : Prox) (hs : List Hinted) (next : Nat)
+    (rows : List (Nat × Cand)) (flags : List Bool) (h : p.assign hs next = .ok (rows, flags))
+    (he : p.len = 0) : flags = List.replicate hs.length true := by
+  apply List.ext_getElem?
+  intro k
+  by_cases hk : k < hs.length
+  · obtain ⟨f, hf, hb, _⟩ := assign_respects_decision p hs next rows flags h k hs[k]
+      (List.getElem?_eq_getElem hk)
+    rw [hf, hb true (novelDec_empty p _ he)]
+    simp [hk]
+  · have hl := assign_flags_length p hs next rows flags h
+    rw [List.getElem?_eq_none (by omega), List.getElem?_eq_none (by simp; omega)]
+
+theorem mkRows_noLC (hs : List Hinted) (fs : List Bool) (next : Nat) :
+    mkRows false hs fs next = (List.range' next (novels hs fs).length).zip (novels hs fs) := by
+  induction hs generalizing fs next with
+  | nil => simp [mkRows, novels]
+  | cons h0 hs ih =>
+    cases fs with
+    | nil => simp [mkRows, novels]
+    | cons f fs =>
+      cases f with
+      | true =>
+        have hnov : novels (h0 :: hs) (true :: fs) = h0.c :: novels hs fs := by simp [novels]
+        simp only [mkRows, hnov, List.length_cons, List.range'_succ, List.zip_cons_cons]
+        rw [ih fs (next + 1)]
+      | false =>
+        have hnov : novels (h0 :: hs) (false :: fs) = novels hs fs := by simp [novels]
+        simp only [mkRows, hnov, Bool.false_eq_true, if_false]
+        exact ih fs next
+
+theorem mkRows_LC (hs : List Hinted) (fs : List Bool) (next : Nat) (hlen : fs.length = hs.length)
+    (hnear : ∀ x ∈ hs.zip fs, x.2 = false → ∃ j, x.1.near = some j) :
+    (mkRows true hs fs next).map (·.2) = hs.map (·.c) ∧
+    (((mkRows true hs fs next).zip fs).filter (fun x => x.2)).map (·.1.1) =
+      List.range' next (novels hs fs).length ∧
+    ∀ x ∈ (mkRows true hs fs next).zip fs, x.2 = false →
+      ∃ hd, (hd, false) ∈ hs.zip fs ∧ hd.c = x.1.2 ∧ hd.near = some x.1.1 := by
+  induction hs generalizing fs next with
+  | nil => cases fs <;> simp_all [mkRows, novels]
+  | cons h0 hs ih =>
+    cases fs with
+    | nil => simp at hlen
+    | cons f fs =>
+      have hlen' : fs.length = hs.length := by simpa using hlen
+      have hnear' : ∀ x ∈ hs.zip fs, x.2 = false → ∃ j, x.1.near = some j :=
+        fun x hx => hnear x (by simp [hx])
+      cases f with
+      | true =>
+        obtain ⟨h1, h2, h3⟩ := ih fs (next + 1) hlen' hnear'
+        have hnov : novels (h0 :: hs) (true :: fs) = h0.c :: novels hs fs := by simp [novels]
+        refine ⟨by simp [mkRows, h1], ?_, ?_⟩
+        · simp only [mkRows, hnov, List.zip_cons_cons, List.filter_cons, if_true, List.map_cons,
+            List.length_cons, List.range'_succ]
+          rw [h2]
+        · intro x hx hf
+          simp only [mkRows, List.zip_cons_cons, List.mem_cons] at hx
+          rcases hx with rfl | hx
+          · simp at hf
+          · obtain ⟨hd, hm, hc, hn⟩ := h3 x hx hf
+            exact ⟨hd, by simp [hm], hc, hn⟩
+      | false =>
+        obtain ⟨h1, h2, h3⟩ := ih fs next hlen' hnear'
+        have hnov : novels (h0 :: hs) (false :: fs) = novels hs fs := by simp [novels]
+        obtain ⟨j, hj⟩ := hnear (h0, false) (by simp) rfl
+        have hj : h0.near = some j := hj
+        have hmk : mkRows true (h0 :: hs) (false :: fs) next = (j, h0.c) :: mkRows true hs fs next := by
+          simp [mkRows, hj]
+        rw [hmk]
+        refine ⟨by simp [h1], ?_, ?_⟩
+        · simp only [hnov, List.zip_cons_cons, List.filter_cons, Bool.false_eq_true, if_false]
+          exact h2
+        · intro x hx hf
+          simp only [List.zip_cons_cons, List.mem_cons] at hx
+          rcases hx with rfl | hx
+          · exact ⟨h0, by simp, rfl, hj⟩
+          · obtain ⟨hd, hm, hc, hn⟩ := h3 x hx hf
+            exact ⟨hd, by simp [hm], hc, hn⟩
+
+/-- **`assign_novel_fresh`** : the rows handed to the store.  Without local competition they are
+exactly the novel candidates, carrying the fresh indices `next, next+1, …` in batch order; with
+local competition there is one row per candidate (in batch order), the rows of the novel ones
+carry `next, next+1, …` in batch order and the row of every non-novel candidate targets an
+index of its `nearestSet` (a stored entry at minimum distance). -/
+theorem assign_novel_fresh (p : Prox) (hs : List Hinted) (next : Nat) (rows : List (Nat × Cand))
+    (flags : List Bool) (h : p.assign hs next = .ok (rows, flags)) :
+    (novels hs flags).length = nNovel flags ∧
+    (p.cfg.lc = false → rows = (List.range' next (nNovel flags)).zip (novels hs flags)) ∧
+    (p.cfg.lc = true →
+      rows.map (·.2) = hs.map (·.c) ∧
+      ((rows.zip flags).filter (fun x => x.2)).map (·.1.1) = List.range' next (nNovel flags) ∧
+      ∀ x ∈ rows.zip flags, x.2 = false → x.1.1 ∈ p.nearestSet x.1.2.meas) := by
+  obtain ⟨hlen, hrows, hch⟩ := assign_spec p hs next rows flags h
+  have hn := novels_length hs flags hlen
+  refine ⟨hn, ?_, ?_⟩
+  · intro hlc
+    rw [hrows, hlc, mkRows_noLC, hn]; rfl
+  · intro hlc
+    have hnear : ∀ x ∈ hs.zip flags, x.2 = false → ∃ j, x.1.near = some j := by
+      intro x hx hf
+      obtain ⟨j, hj, _⟩ := (hch x hx).2 hf hlc
+      exact ⟨j, hj⟩
+    obtain ⟨h1, h2, h3⟩ := mkRows_LC hs flags next hlen hnear
+    rw [hrows, hlc]
+    refine ⟨h1, by rw [h2, hn]; rfl, ?_⟩
+    intro x hx hf
+    obtain ⟨hd, hm, hc, hnr⟩ := h3 x hx hf
+    obtain ⟨j, hj, hmem⟩ := (hch (hd, false) hm).2 rfl hlc
+    rw [hnr] at hj
+    cases hj
+    rw [← hc]; exact hmem
+
+
+/-! ## the bracket over ℝ -/
+
+/-- **`sqrt_bracket_real`** : `[sqrtLo x p, sqrtHi x p]` brackets the real square root -/
+theorem sqrt_bracket_real (x : Rat) (hx : 0 ≤ x) (p : Nat) :
+    ((sqrtLo x p : Rat) : ℝ) ≤ Real.sqrt (x : ℝ) ∧ Real.sqrt (x : ℝ) ≤ ((sqrtHi x p : Rat) : ℝ) := by
+  constructor
+  · have h : ((sqrtLo x p : Rat) : ℝ) ^ 2 ≤ (x : ℝ) := by exact_mod_cast sqrtLo_sq_le x hx p
+    exact (le_abs_self _).trans (Real.abs_le_sqrt h)
+  · have h0 : (0 : ℝ) ≤ ((sqrtHi x p : Rat) : ℝ) := by exact_mod_cast sqrtHi_nonneg x p
+    have h : (x : ℝ) ≤ ((sqrtHi x p : Rat) : ℝ) ^ 2 := by exact_mod_cast le_sqrtHi_sq x hx p
+    exact Real.sqrt_le_iff.mpr ⟨h0, h⟩
+
+theorem cast_sum_le (nb : List Nb) (f : Nb → Rat) (g : Nb → ℝ) (h : ∀ n ∈ nb, ((f n : Rat) : ℝ) ≤ g n) :
+    (((nb.map f).sum : Rat) : ℝ) ≤ (nb.map g).sum := by
+  induction nb with
+  | nil => simp
+  | cons n nb ih =>
+    simp only [List.map_cons, List.sum_cons, Rat.cast_add]
+    exact add_le_add (h n List.mem_cons_self) (ih (fun x hx => h x (List.mem_cons_of_mem _ hx)))
+
+theorem le_cast_sum (nb : List Nb) (f : Nb → Rat) (g : Nb → ℝ) (h : ∀ n ∈ nb, g n ≤ ((f n : Rat) : ℝ)) :
+    (nb.map g).sum ≤ (((nb.map f).sum : Rat) : ℝ) := by
+  induction nb with
+  | nil => simp
+  | cons n nb ih =>
+    simp only [List.map_cons, List.sum_cons, Rat.cast_add]
+    exact add_le_add (h n List.mem_cons_self) (ih (fun x hx => h x (List.mem_cons_of_mem _ hx)))
+
+/-- mean Euclidean distance over a list of neighbours (`d2` = exact squared distance) -/
+noncomputable def realMean (nb : List Nb) : ℝ :=
+  (nb.map (fun n => Real.sqrt (n.d2 : ℝ))).sum / (nb.length : ℝ)
+
+/-- the rational bracket `[loSum / len, hiSum / len]` contains the real mean distance -/
+theorem bracket_real (nb : List Nb) (h : ∀ n ∈ nb, 0 ≤ n.d2) :
+    ((loSum nb / (nb.length : Rat) : Rat) : ℝ) ≤ realMean nb ∧
+    realMean nb ≤ ((hiSum nb / (nb.length : Rat) : Rat) : ℝ) := by
+  have hl : (0 : ℝ) ≤ (nb.length : ℝ) := Nat.cast_nonneg _
+  unfold realMean loSum hiSum
+  constructor
+  · rw [Rat.cast_div, Rat.cast_natCast]
+    exact div_le_div_of_nonneg_right
+      (cast_sum_le nb _ _ (fun n hn => (sqrt_bracket_real n.d2 (h n hn) sqrtPrec).1)) hl
+  · rw [Rat.cast_div, Rat.cast_natCast]
+    exact div_le_div_of_nonneg_right
+      (le_cast_sum nb _ _ (fun n hn => (sqrt_bracket_real n.d2 (h n hn) sqrtPrec).2)) hl
+
+/-- list-independent form: a threshold below the lower bracket is below the real mean, one above
+the upper bracket is above it -/
+theorem bracket_sound (nb : List Nb) (h : ∀ n ∈ nb, 0 ≤ n.d2) (ν : Rat) :
+    (ν ≤ loSum nb / (nb.length : Rat) → (ν : ℝ) ≤ realMean nb) ∧
+    (hiSum nb / (nb.length : Rat) < ν → realMean nb < (ν : ℝ)) := by
+  obtain ⟨h1, h2⟩ := bracket_real nb h
+  constructor
+  · intro hν
+    have : (ν : ℝ) ≤ ((loSum nb / (nb.length : Rat) : Rat) : ℝ) := by exact_mod_cast hν
+    exact le_trans this h1
+  · intro hν
+    have : ((hiSum nb / (nb.length : Rat) : Rat) : ℝ) < (ν : ℝ) := by exact_mod_cast hν
+    exact lt_of_le_of_lt h2 this
+
+/-- the real-valued novelty: mean Euclidean distance to the `min k n` nearest stored entries -/
+noncomputable def realNovelty (p : Prox) (m : List Rat) : ℝ := realMean (p.kNearest m)
+
+/-- **`novelDec_sound`** : soundness of the admission decision against the real-valued novelty
+(mean Euclidean distance to the `min k n` nearest stored entries, judged on the archive before
+the call): `some true` ⇒ `ν ≤ novelty`, `some false` ⇒ `novelty < ν`. -/
+theorem novelDec_sound (p : Prox) (m : List Rat) (hne : p.len ≠ 0) :
+    (p.novelDec m = some true → (p.cfg.nu : ℝ) ≤ realNovelty p m) ∧
+    (p.novelDec m = some false → realNovelty p m < (p.cfg.nu : ℝ)) := by
+  obtain ⟨h1, h2⟩ := novelDec_bracket p m hne
+  obtain ⟨h3, h4⟩ := bracket_sound (p.kNearest m) (kNearest_d2_nonneg p m) p.cfg.nu
+  exact ⟨fun h => h3 (h1 h), fun h => h4 (h2 h)⟩
+
+/-- **T14.1 `admission_sound`** : for every candidate of an accepted `add`: it is flagged novel
+(= becomes a new entry, `novel_fresh`) when the archive is empty; otherwise a candidate flagged
+novel has real novelty `≥ ν` and one flagged non-novel has real novelty `< ν`, unless the
+threshold lies inside the rational bracket of the novelty (`novelDec = none`). -/
+theorem admission_sound (p : Prox) (hs : List Hinted) (p' : Prox) (fb : Feedback)
+    (h : p.add hs = .ok (p', fb)) (k : Nat) (hd : Hinted) (hk : hs[k]? = some hd) :
+    ∃ f, fb.novel[k]? = some f ∧ (p.len = 0 → f = true) ∧
+      (p.len ≠ 0 →
+        (f = true → (p.cfg.nu : ℝ) ≤ realNovelty p hd.c.meas ∨ p.novelDec hd.c.meas = none) ∧
+        (f = false → realNovelty p hd.c.meas < (p.cfg.nu : ℝ) ∨ p.novelDec hd.c.meas = none)) := by
+  obtain ⟨rows, hr, _⟩ := add_ok p hs p' fb h
+  obtain ⟨f, hf, hb, _⟩ := assign_respects_decision p hs p.len rows fb.novel hr k hd hk
+  refine ⟨f, hf, fun he => hb true (novelDec_empty p _ he), ?_⟩
+  intro hne
+  obtain ⟨h1, h2⟩ := novelDec_sound p hd.c.meas hne
+  constructor
+  · intro hft
+    cases hn : p.novelDec hd.c.meas with
+    | none => exact Or.inr rfl
+    | some b =>
+      have := hb b hn
+      rw [hft] at this; subst this
+      exact Or.inl (h1 hn)
+  · intro hff
+    cases hn : p.novelDec hd.c.meas with
+    | none => exact Or.inr rfl
+    | some b =>
+      have := hb b hn
+      rw [hff] at this; subst this
+      exact Or.inl (h2 hn)
+
+/-- every competitor for the stored entry `t` is a non-novel candidate of the batch whose
+nearest stored entry (minimum exact distance) is `t` -/
+theorem competitors_nearest (p : Prox) (hs : List Hinted) (p' : Prox) (fb : Feedback)
+    (h : p.add hs = .ok (p', fb)) (t : Nat) (c : Cand)
+    (hc : c ∈ competitors p.cfg.lc hs fb.novel t) :
+    p.cfg.lc = true ∧ t ∈ p.nearestSet c.meas ∧
+      ∃ hd, (hd, false) ∈ hs.zip fb.novel ∧ hd.c = c ∧ hd.near = some t := by
+  obtain ⟨rows, hr, _⟩ := add_ok p hs p' fb h
+  obtain ⟨_, _, hch⟩ := assign_spec p hs p.len rows fb.novel hr
+  unfold competitors at hc
+  by_cases hlc : p.cfg.lc = true
+  · rw [if_pos hlc] at hc
+    simp only [List.mem_map, List.mem_filter, Bool.and_eq_true, Bool.not_eq_true',
+      beq_iff_eq] at hc
+    obtain ⟨x, ⟨hx, hxf, hxn⟩, rfl⟩ := hc
+    obtain ⟨j, hj, hmem⟩ := (hch x hx).2 hxf hlc
+    rw [hxn] at hj
+    cases hj
+    refine ⟨hlc, hmem, x.1, ?_, rfl, hxn⟩
+    have : x = (x.1, false) := by rw [← hxf]
+    rw [← this]; exact hx
+  · rw [if_neg hlc] at hc; simp at hc
+
+/-! ## non-vacuity -/
+
+/-- what is observed of a state: tokens at indices `0..4`, size, capacity -/
+def obs (p : Prox) : List (Option Nat) × Nat × Nat :=
+  ((List.range 5).map (fun i => (p.arch.cellOf i).map (·.tok)), p.len, p.capacity)
+
+def flagsOf (p : Prox) (hs : List Hinted) : Option (List Bool) :=
+  match p.add hs with
+  | .ok (_, fb) => some fb.novel
+  | .error _ => none
+
+def cfgA : PCfg := ⟨1, 5, false, 0⟩
+def cfgB : PCfg := ⟨1, 5, true, 0⟩
+def batchA1 : List Hinted := [⟨⟨1, 0, [0, 0]⟩, true, none⟩, ⟨⟨2, 0, [0, 1]⟩, true, none⟩]
+def batchA2 : List Hinted := [⟨⟨3, 0, [-3, -4]⟩, true, none⟩, ⟨⟨4, 7, [0, 2]⟩, false, some 1⟩]
+def batchB1 : List Hinted := [⟨⟨1, 1, [0, 0]⟩, true, none⟩, ⟨⟨2, 1, [0, 10]⟩, true, none⟩]
+def batchB2 : List Hinted :=
+  [⟨⟨3, 5, [0, 1]⟩, false, some 0⟩, ⟨⟨4, 1, [0, 9]⟩, false, some 1⟩, ⟨⟨5, 0, [-3, -4]⟩, true, none⟩,
+   ⟨⟨6, 4, [1, 0]⟩, false, some 0⟩]
+
+theorem nonvacuous :
+    -- no local competition, k = 1, ν = 5, initial capacity 1
+    obs (run cfgA 1 [.add batchA1]) = ([some 1, some 2, none, none, none], 2, 2) ∧
+    flagsOf (run cfgA 1 []) batchA1 = some [true, true] ∧
+    (run cfgA 1 [.add batchA1]).novelDec [-3, -4] = some true ∧
+    (run cfgA 1 [.add batchA1]).kNearest [-3, -4] = [⟨25, 0, 0⟩] ∧
+    (run cfgA 1 [.add batchA1]).novelDec [0, 2] = some false ∧
+    flagsOf (run cfgA 1 [.add batchA1]) batchA2 = some [true, false] ∧
+    obs (run cfgA 1 [.add batchA1, .add batchA2]) = ([some 1, some 2, some 3, none, none], 3, 4) ∧
+    (run cfgA 1 [.add batchA1, .add batchA2]).bounds 2 = some ([-3, -4], [0, 1]) ∧
+    (run cfgA 1 [.add batchA1, .add batchA2, .clear]).bounds 2 = none ∧
+    obs (run cfgA 1 [.add batchA1, .add batchA2, .clear]) = ([none, none, none, none, none], 0, 4) ∧
+    -- local competition
+    flagsOf (run cfgB 1 [.add batchB1]) batchB2 = some [false, false, true, false] ∧
+    obs (run cfgB 1 [.add batchB1, .add batchB2]) = ([some 3, some 2, some 5, none, none], 3, 4) ∧
+    -- both final states satisfy the hypotheses of the theorems above
+    ProxInv (run cfgA 1 [.add batchA1, .add batchA2]) ∧ ProxInv (run cfgB 1 [.add batchB1, .add batchB2]) := by
+  refine ⟨?_, ?_, ?_, ?_, ?_, ?_, ?_, ?_, ?_, ?_, ?_, ?_, inv_history _ _ (by decide) _,
+    inv_history _ _ (by decide) _⟩ <;> decide +kernel
 
 end Pyribs.C14
